@@ -40,6 +40,9 @@ pub enum AttemptKind {
     SecondOverPase,
     /// UpdateNOC on fabric A over admin A's CASE session.
     UpdateNoc,
+    /// No credential command at all: the fail-safe is armed over admin A's CASE session and
+    /// only settings of fabric A are changed under it (its ACL, network credentials).
+    CaseSettings,
 }
 
 #[derive(Clone, Copy, Debug, PartialEq, Eq)]
@@ -133,6 +136,11 @@ fn attempt_steps(kind: AttemptKind, secs: u16) -> Vec<Step> {
             Step::Arm { ctx: SCtx::CaseA, secs },
             Step::Csr { ctx: SCtx::CaseA, update: true },
             Step::UpdateNoc { ctx: SCtx::CaseA, fab_b: false },
+        ],
+        AttemptKind::CaseSettings => vec![
+            Step::Arm { ctx: SCtx::CaseA, secs },
+            Step::WriteAcl { ctx: SCtx::CaseA, n: 2 },
+            Step::AddWifi { ctx: SCtx::CaseA, n: 3 },
         ],
     }
 }
@@ -270,7 +278,7 @@ impl FsRef {
 
 fn other_ctx(kind: AttemptKind, precommission: bool) -> SCtx {
     match kind {
-        AttemptKind::UpdateNoc => SCtx::Pase,
+        AttemptKind::UpdateNoc | AttemptKind::CaseSettings => SCtx::Pase,
         _ => {
             if precommission {
                 SCtx::CaseA
@@ -289,6 +297,7 @@ fn with_ctx(step: &Step, ctx: SCtx) -> Step {
         Step::AddNoc { fab_b, .. } => Step::AddNoc { ctx, fab_b },
         Step::UpdateNoc { fab_b, .. } => Step::UpdateNoc { ctx, fab_b },
         Step::AddWifi { n, .. } => Step::AddWifi { ctx, n },
+        Step::WriteAcl { n, .. } => Step::WriteAcl { ctx, n },
         s => s,
     }
 }
@@ -353,7 +362,7 @@ pub fn build(sc: &Scenario) -> Built {
         }
         Trigger::ForceExpire => {
             trigger_at = Some(steps.len());
-            let ctx = if kind == AttemptKind::UpdateNoc { SCtx::CaseA } else { SCtx::Pase };
+            let ctx = if matches!(kind, AttemptKind::UpdateNoc | AttemptKind::CaseSettings) { SCtx::CaseA } else { SCtx::Pase };
             steps.push(Step::Arm { ctx, secs: 0 });
         }
         Trigger::ForceExpireByOtherAdmin => {
@@ -370,7 +379,7 @@ pub fn build(sc: &Scenario) -> Built {
         }
         Trigger::Complete => {
             match kind {
-                AttemptKind::UpdateNoc => {
+                AttemptKind::UpdateNoc | AttemptKind::CaseSettings => {
                     // the old session keeps working until the new NOC is committed
                     trigger_at = Some(steps.len());
                     steps.push(Step::Complete { ctx: SCtx::CaseA });
@@ -407,6 +416,7 @@ pub fn gen_scenario(rng: &mut Rng) -> Scenario {
         AttemptKind::SecondOverPase,
         AttemptKind::SecondOverPase,
         AttemptKind::UpdateNoc,
+        AttemptKind::CaseSettings,
     ]);
     let precommission = kind != AttemptKind::FirstOverPase;
     let tamper = match rng.below(10) {
@@ -517,10 +527,27 @@ pub fn judge(rep: &mut Report, sc: &Scenario, b: &Built, r: &WorldResult, kv: &c
     let clean_net = sc.chaos == 0;
 
     // ---- S0: the state right before the attempt's first command ----
-    let s0 = if b.attempt_start == 0 {
+    // (for the settings-only attempt: right before the ArmFailSafe - a setting written before
+    // arming is an ordinary, permanent write and not part of what the fail-safe undoes)
+    let s0_before = if sc.kind == AttemptKind::CaseSettings {
+        r.log
+            .iter()
+            .find(|l| l.index >= b.attempt_start && matches!(l.step, Step::Arm { secs, .. } if secs > 0))
+            .map(|l| l.index)
+            .unwrap_or(b.attempt_start)
+    } else {
+        b.attempt_start
+    };
+    if r.log.iter().any(|l| l.index >= b.attempt_start && l.index < s0_before && !l.success) {
+        // a setting written before arming failed (injected KV failure): RAM and store already
+        // disagree before the fail-safe starts - not a scenario about the fail-safe
+        rep.inconclusive("settings-write-before-arming-failed");
+        return;
+    }
+    let s0 = if s0_before == 0 {
         DevDump::default()
     } else {
-        match log_at(&r.log, b.attempt_start - 1) {
+        match log_at(&r.log, s0_before - 1) {
             Some(l) => l.dev.clone(),
             None => {
                 rep.inconclusive("no-s0");
@@ -710,7 +737,7 @@ pub fn judge(rep: &mut Report, sc: &Scenario, b: &Built, r: &WorldResult, kv: &c
     // Only for scenarios without an injected KV failure and with a reliable network (the
     // acknowledgement bookkeeping below needs to know when the completion was acknowledged).
     if sc.kv_fail_at.is_none() && clean_net && armed_once {
-        let attempt_kv0 = log_at(&r.log, b.attempt_start.saturating_sub(1)).map(|l| l.kv_ops).unwrap_or(0);
+        let attempt_kv0 = log_at(&r.log, s0_before.saturating_sub(1)).map(|l| l.kv_ops).unwrap_or(0);
         let (commit_from, commit_acked) = if completed {
             let t = trig.unwrap();
             let before = log_at(&r.log, t.index - 1).map(|l| l.kv_ops).unwrap_or(0);
